@@ -203,13 +203,36 @@ def exec_filtered(case):
         list(toast.generate_tiles_filtered(depth, spy, bottom_only=True, coordsys=cs_of(planetary)))
     for t in seen:
         compare_tile(t, planetary, "tile handed to the filter")
-    return Outcome(classes=[f"depth{depth}", "route:filtered", "planetary" if planetary else "astronomical"], nontrivial=depth >= 2 and len(tiles) > 0, count=len(tiles))
+    cls = [f"depth{depth}", "route:filtered", "planetary" if planetary else "astronomical"]
+    n_box = 0
+    if case.get("box"):
+        # the same route under the library's own latitude/longitude box filter (a filter that inspects the corners): whichever
+        # tiles it lets through (C07's subject), each must be the tile of the position it reports
+        from toasty import samplers
+
+        make = getattr(samplers, "_latlon_tile_filter", None)
+        if make is not None:
+            with toasty_call("enumeration", "generate_tiles_filtered under a lat/lon box filter"):
+                flt = make(*case["box"])
+                bt = list(toast.generate_tiles_filtered(min(depth, 4), flt, bottom_only=False, coordsys=cs_of(planetary)))
+            for t in bt:
+                compare_tile(t, planetary, f"generate_tiles_filtered under the box filter {case['box']}")
+            n_box = len(bt)
+            cls.append("box-filter")
+    return Outcome(classes=cls, nontrivial=depth >= 2 and len(tiles) > 0, count=len(tiles) + n_box)
 
 
 @st.composite
 def strat_filtered(draw, tier):
     depth = draw(st.integers(1, 5 if tier == "quick" else 7))
-    return {"depth": depth, "planetary": draw(st.booleans()), "filter": draw(gens.filter_specs(depth))}
+    case = {"depth": depth, "planetary": draw(st.booleans()), "filter": draw(gens.filter_specs(depth))}
+    if draw(st.integers(0, 2)) == 0:
+        import math
+
+        lon0 = draw(st.floats(-math.pi, 2 * math.pi))
+        lat0 = draw(st.floats(-1.4, 1.2))
+        case["box"] = [lon0, lon0 + draw(st.floats(0.2, 4.0)), lat0, min(math.pi / 2, lat0 + draw(st.floats(0.1, 2.0)))]
+    return case
 
 
 def exec_single(case):
